@@ -25,14 +25,14 @@ func init() {
 }
 
 type fault struct {
-	Kind  string `json:"kind"`  // none cut write-error callback input-error exception exception+write-error unknown-code unexpected-packet cancel deadline
-	K     int    `json:"k"`     // byte offset / callback index / packet position
-	Gate  string `json:"gate"`  // gate at which an exception is injected or the context is cancelled
-	Occ   int    `json:"occ"`   // occurrence of that gate (1-based)
+	Kind  string `json:"kind"`                         // none cut write-error callback input-error exception exception+write-error unknown-code unexpected-packet cancel deadline
+	K     int    `json:"k"`                            // byte offset / callback index / packet position
+	Gate  string `json:"gate"`                         // gate at which an exception is injected or the context is cancelled
+	Occ   int    `json:"occ"`                          // occurrence of that gate (1-based)
 	Block bool   `json:"peer_stops_reading,omitempty"` // from the moment of cancellation on the peer accepts no more bytes (writes block)
 	WFail bool   `json:"cancel_write_fails,omitempty"` // from the moment of cancellation on, every write on the connection fails
-	Far   bool   `json:"far_deadline,omitempty"` // the caller's context also carries a deadline far beyond the read timeout
-	Sched string `json:"sched"` // "" | recv-first (sender resumes after the receiver has handled the injected packet) | watch-first (the cancel-watch checks before the failing receiver has returned)
+	Far   bool   `json:"far_deadline,omitempty"`       // the caller's context also carries a deadline far beyond the read timeout
+	Sched string `json:"sched"`                        // "" | recv-first (sender resumes after the receiver has handled the injected packet) | watch-first (the cancel-watch checks before the failing receiver has returned)
 }
 
 func (f fault) String() string {
@@ -49,27 +49,27 @@ type scenSpec struct {
 }
 
 type scenOutcome struct {
-	err        error
-	errClass   string
-	elapsed    time.Duration
-	hung       bool
-	closed     bool
-	closeCalls int
-	written    []byte // client bytes of the query (after the handshake)
-	gateLen    map[string][]int // len(written) at each occurrence of the sender gates
-	gates      []string
-	callbacks  int
-	srvLen     int   // server bytes of the fault-free script
-	srvBounds  []int // packet boundaries of the server stream
-	fed        int
-	postWritten []byte
-	pingErr    error
-	closedCallsErr [2]error
-	touchedAfterClose bool
+	err                               error
+	errClass                          string
+	elapsed                           time.Duration
+	hung                              bool
+	closed                            bool
+	closeCalls                        int
+	written                           []byte           // client bytes of the query (after the handshake)
+	gateLen                           map[string][]int // len(written) at each occurrence of the sender gates
+	gates                             []string
+	callbacks                         int
+	srvLen                            int   // server bytes of the fault-free script
+	srvBounds                         []int // packet boundaries of the server stream
+	fed                               int
+	postWritten                       []byte
+	pingErr                           error
+	closedCallsErr                    [2]error
+	touchedAfterClose                 bool
 	goroutinesBefore, goroutinesAfter int
-	cancelAtWritten int // len(written) when the context was cancelled
-	srvUnread int // server bytes fed but not read when Do returned
-	nextPanic string // the request after the failed query panicked
+	cancelAtWritten                   int    // len(written) when the context was cancelled
+	srvUnread                         int    // server bytes fed but not read when Do returned
+	nextPanic                         string // the request after the failed query panicked
 }
 
 var errCallbackFault = errors.New("callback: injected failure")
@@ -692,7 +692,9 @@ func observedSummary(f fault, o, base *scenOutcome) string {
 	return s
 }
 
-func correspondC04(c *Ctx, sp scenSpec, f fault, o, base *scenOutcome) { correspondDo(c, sp, f, o, base, false) }
+func correspondC04(c *Ctx, sp scenSpec, f fault, o, base *scenOutcome) {
+	correspondDo(c, sp, f, o, base, false)
+}
 
 func correspondDo(c *Ctx, sp scenSpec, f fault, o, base *scenOutcome, env bool) {
 	if c.D == nil || o.hung {
